@@ -127,7 +127,7 @@ impl Property for P {
     fn cases(tier: Tier) -> u64 {
         match tier {
             Tier::Quick => 12_000,
-            Tier::Thorough => 80_000,
+            Tier::Thorough => 400_000,
         }
     }
     fn chunk(_t: Tier) -> u64 {
